@@ -41,13 +41,16 @@ func init() {
 }
 
 // raceSink reads what it is given (so that a buffer rewritten by another
-// goroutine during the write is a reported race) and shares nothing.
+// goroutine during the write is a reported race) and, like a real
+// non-thread-safe device, keeps plain unsynchronised state that both Write
+// and Sync touch: zap promises such a sink exclusive access (Lock,
+// BufferedWriteSyncer, CombineWriteSyncers), so two overlapping calls on it
+// are a data race that zap's own locking failed to prevent.
 type raceSink struct {
-	n    int
-	fail bool
+	n      int
+	synced int
 }
 
-//go:norace
 func (s *raceSink) bump() { s.n++ }
 
 var sinkhole byte
@@ -68,7 +71,13 @@ func (s *raceSink) Write(p []byte) (int, error) {
 	s.bump()
 	return len(p), nil
 }
-func (s *raceSink) Sync() error  { zsim.Yield(zsim.KSink, unsafe.Pointer(s)); return nil }
+func (s *raceSink) Sync() error {
+	zsim.Yield(zsim.KSink, unsafe.Pointer(s))
+	s.synced = s.n
+	zsim.Yield(zsim.KSink, unsafe.Pointer(s))
+	s.synced = s.n
+	return nil
+}
 func (s *raceSink) Close() error { return nil }
 
 type c09op struct {
